@@ -73,6 +73,17 @@ def run(ctx, chk):
     anchors.check(ctx, chk, ['punch', 'promote_reads_pending'])
     flush_before_punch(ctx, chk, "B12.1")
     punch_lock_rules(ctx, chk, "B12.2")
+    # B12.5 the writer side of the tail-punch exclusion: punch_holes takes a region's metadata *write* lock before it
+    # inspects and punches the tail ceil(len)..reserved, which excludes a concurrent append into that tail only if the
+    # appending thread holds the metadata lock while it copies the bytes (it publishes the new len afterwards)
+    ww = O.body("rawdb::region::Region::write_with")
+    dw = O.need_sites(ww, M(r"rawdb::Database::write"), 4)
+    unlocked = [b for b in dw if not any(c == "META" for c, m in O.held_classes(ww, b))]
+    chk.oblige("B12.5 held_at(write_with: Database::write into the region's reserve, META) [%d data-write sites]" % len(dw),
+               not unlocked, detail={"unprotected_sites": [ww.blocks[b]["term"].get("span") for b in unlocked]},
+               key="B12.5|write_with|data-write-without-meta-lock",
+               msg="compaction can punch a region's reserve tail while a writer is copying an append into it: the writer "
+                   "holds no metadata lock between reading (len, reserved) and publishing the new len")
     # B12.4 what becomes a punchable hole at compact's own flush was never grown into: pending holes are occupied space
     pending_holes_occupied(ctx, chk, "B12.4")
     ph = O.body(PUNCH_HOLES)
